@@ -511,7 +511,7 @@ def plan(ctx):
     nfirst = len(ops)
     ex = [('ex', depth, d, i, 16) for d in range(len(tiny_docs()) if depth == 2 else 3) for i in range(16)]
     return [('shard_exhaustive', ex),
-            ('shard_histories', [('h', ctx.pick(1200, 4000), ctx.pick(14, 40), i) for i in range(16)])]
+            ('shard_histories', [('h', ctx.pick(900, 4000), ctx.pick(14, 40), i) for i in range(16)])]
 
 
 def shard_exhaustive(ctx, shard):
